@@ -256,3 +256,34 @@ def _(c):
     c.ensures("old('x1' in us._keys and 'y1' in us._keys and len(list(ut)) == len(g0[3]) + 1)", "the-open-scope's-units-and-type-were-still-registered-after-the-release")
     c.ensures("gstate(us, up, ut) == g0", "tables-identical-to-before-both-scopes")
     c.no_raise()
+
+
+# ---- a definition that is neither a class nor a text (a list, an instance): whether such a registration is accepted or refused is not
+#      fixed by the property, but if it is refused the tables are as before, and if it is accepted the scope takes back what it added ------
+ODD = {
+    "list-definition-first": lambda b: {"x1": unit(b, "x1", definition=b.list(["8", "m"]))},
+    "list-definition-after-a-good-unit": lambda b: {"x1": unit(b, "x1"), "x2": unit(b, "x2", definition=b.list(["8", "m"]))},
+    "dict-definition-after-a-new-type": lambda b: {"x1": unit(b, "x1", definition=b.glob("units/unit_types.py::UnitType")), "x2": unit(b, "x2", definition=b.dict({"a": 1}))},
+}
+
+
+@contract(UE + ".__init__", ["C09"], name="UnitEnvironment.__init__[definition-that-is-no-class]")
+def _(c):
+    for name, mk in ODD.items():
+        c.scenario(name, (lambda mk: lambda b: dict(args=[b.obj(UE), b.dict(mk(b))], env=_env(b)))(mk))
+    c.on_raise("gstate(us, up, ut) == old(gstate(us, up, ut))", "tables-as-before-the-failed-registration")
+    c.ensures("list(us._keys) == old(list(us._keys)) + list(units.keys())", "new-symbols-registered-after-the-old-ones")
+
+
+@contract(UE + ".close", ["C09"], name="UnitEnvironment.close[definition-that-is-no-class]")
+def _(c):
+    for name, mk in ODD.items():
+        def pre(b, mk=mk):
+            us, up, ut = b.glob(US), b.glob(UP), b.glob(UT)
+            g0 = b.call(b.specfn(gstate), us, up, ut)
+            e, exc = b.call_catching(b.cls(UE), b.dict(mk(b)))
+            b.assume(exc is None)
+            return dict(args=[e], env=_env(b, g0=g0))
+        c.scenario(name, pre)
+    c.ensures("gstate(us, up, ut) == g0", "tables-as-before-the-scope")
+    c.no_raise()
